@@ -24,7 +24,9 @@ Definition row_of (t : string * string * list comp * list comp) : key_row :=
 (** the table of the current source tree *)
 Definition key_table : list key_row := map row_of Gen.C14.key_table.
 
-(** the variables whose value differs between the slices of ONE range question *)
+(** the variables whose value differs between the slices of ONE range question.  "slice_start" / "slice_end" are whatever the
+    source hashes for the slice's bounds - opaque values: the formatted start; the formatted end, the last evaluated grid point or
+    (since c5439fe) the number of grid points computed from start, end and step *)
 Definition slice_vars : list string := ["slice_start"; "slice_end"].
 
 Definition env := string -> string.
